@@ -278,8 +278,15 @@ def generate(rng, profile='engine'):
     ops = []
     for k in range(nops):
         r = rng.random()
-        if r < 0.1:
+        if r < 0.07:
             ops.append({'op': 'gap', 'dt': gen_dt(rng) + 1})
+            continue
+        if r < 0.1:
+            # the caller re-tunes the object between calls (attributes are documented as assignable at any time)
+            which = rng.choice(['searchwindowsize', 'searchwindowsize', 'maxread', 'timeout'] + ([] if tr == 'popen' else ['delayafterread']))
+            val = {'searchwindowsize': rng.choice([None, 1, 2, 3, 8, 50]), 'maxread': rng.choice([1, 2, 5, 2000] if n <= 300 else [200, 2000]),
+                   'timeout': rng.choice([0.001, 0.003, 0.02]), 'delayafterread': rng.choice([None, 0.0001, 0.001])}[which]
+            ops.append({'op': 'setattr', 'k': which, 'v': val})
             continue
         if r < 0.16:
             ops.append({'op': 'setbuf', 'v': gen_text(rng, rng.choice([0, 0, 1, 3, 6]), uni)})
